@@ -86,10 +86,11 @@ Proof.
   intros Hb. unfold set_frac. destruct (b =? 0) eqn:E; [lia|reflexivity].
 Qed.
 
-Lemma pow_no_panic_partial bn bd e :
-  0 < bd -> (bn <> 0 \/ 0 <= e) -> is_panic (pow_exact bn bd e) = false.
+Lemma pow_no_panic bn bd e : 0 < bd -> is_panic (pow_exact bn bd e) = false.
 Proof.
-  intros Hbd Hdom. unfold pow_exact.
+  intros Hbd. unfold pow_exact.
+  destruct ((bn =? 0) && (e <? 0)) eqn:Ez; [reflexivity|].
+  assert (Hdom : bn <> 0 \/ 0 <= e) by lia.
   destruct (e =? 0) eqn:E0; [reflexivity|].
   destruct (e =? 1) eqn:E1; [reflexivity|].
   destruct (e =? -1) eqn:Em1.
@@ -103,17 +104,10 @@ Proof.
   - cbn [bind fst snd]. apply set_frac_no_panic. apply Z.pow_nonzero; lia.
 Qed.
 
-Lemma pow_zero_neg_refuted :
-  exists bn bd e, 0 < bd /\ pow_exact bn bd e = Panic PDivZero.
-Proof. exists 0, 1, (-1). split; [lia|reflexivity]. Qed.
-
-Lemma pow_zero_neg_all bd e : e < 0 -> pow_exact 0 bd e = Panic PDivZero.
+(* zero to a negative integer power is the divide-by-zero (bad value) exception *)
+Lemma pow_zero_neg_is_exception bd e : e < 0 -> pow_exact 0 bd e = Err EBadValue.
 Proof.
-  intros He. unfold pow_exact.
-  destruct (e =? 0) eqn:E0; [lia|]. destruct (e =? 1) eqn:E1; [lia|].
-  destruct (e =? -1) eqn:Em1; [reflexivity|].
-  destruct ((bd =? 1) && (e >? 0)) eqn:Ei; [lia|].
-  destruct (e <? 0) eqn:Eneg; [reflexivity|lia].
+  intros He. unfold pow_exact. destruct ((0 =? 0) && (e <? 0)) eqn:E; [reflexivity|lia].
 Qed.
 
 (* ================================================================== *)
@@ -147,40 +141,34 @@ Proof.
   destruct (i >=? zlen s) eqn:E; [|lia]. destruct (i + 1 >? limit) eqn:El; [reflexivity|lia].
 Qed.
 
-(* operands the partial theorem admits *)
+(* operands the partial theorem admits: any fd, negative ones included, whose
+   table would still be allocated *)
 Definition dst_ok (limit : Z) (v : fdval) : Prop :=
   match v with
-  | FdNum z => 0 <= z /\ z + 1 <= limit
-  | FdName k => 0 <= k /\ k + 1 <= limit
-  | _ => True
-  end.
-
-Definition src_ok (v : fdval) : Prop :=
-  match v with
-  | FdNum z => -1 <= z
-  | FdName k => 0 <= k
+  | FdNum z => z + 1 <= limit
+  | FdName k => k + 1 <= limit
   | _ => True
   end.
 
 Definition redir_ok (limit : Z) (r : redir) : Prop :=
-  match r_dst r with Some v => dst_ok limit v | None => True end
-  /\ match r_src r with SrcFd v => src_ok v | _ => True end.
+  match r_dst r with Some v => dst_ok limit v | None => True end.
+
+Lemma dst_eval_cases limit r :
+  2 <= limit -> redir_ok limit r ->
+  (exists e, dst_eval r = Err e) \/ exists d, dst_eval r = Ok d /\ 0 <= d /\ d + 1 <= limit.
+Proof.
+  intros Hlim Hd. unfold dst_eval, redir_ok in *. destruct (r_dst r) as [v|].
+  - destruct v as [z|k| |]; cbn in *; eauto.
+    + destruct (z <? 0) eqn:E; [eauto|]. right; eexists; (split; [reflexivity|lia]).
+    + destruct (k <? 0) eqn:E; [eauto|]. right; eexists; (split; [reflexivity|lia]).
+  - right. destruct (r_mode r); eexists; (split; [reflexivity|lia]).
+Qed.
 
 Lemma redir_exec_no_panic limit st r :
   2 <= limit -> redir_ok limit r -> is_panic (redir_exec limit st r) = false.
 Proof.
-  intros Hlim [Hd Hs]. destruct st as [ports fops]. unfold redir_exec.
-  (* destination *)
-  assert (Hdst : (exists e, match r_dst r with
-                            | None => Ok (match r_mode r with MRead => 0 | _ => 1 end)
-                            | Some v => eval_for_fd v false end = Err e)
-                 \/ exists d, match r_dst r with
-                            | None => Ok (match r_mode r with MRead => 0 | _ => 1 end)
-                            | Some v => eval_for_fd v false end = Ok d /\ 0 <= d /\ d + 1 <= limit).
-  { destruct (r_dst r) as [v|].
-    - destruct v; cbn in *; eauto; right; eexists; (split; [reflexivity|lia]).
-    - right. destruct (r_mode r); eexists; (split; [reflexivity|lia]). }
-  destruct Hdst as [[e ->]|(d & -> & Hd0 & Hd1)]; [reflexivity|]. cbn [bind].
+  intros Hlim Hd. destruct st as [ports fops]. unfold redir_exec.
+  destruct (dst_eval_cases limit r Hlim Hd) as [[e ->]|(d & -> & Hd0 & Hd1)]; [reflexivity|]. cbn [bind].
   destruct (grow_access_ok (@None port) limit ports d Hd0 Hd1) as (p1 & -> & Hp1 & _ & _). cbn [bind].
   destruct (grow_access_ok (mkFop false false) limit fops d Hd0 Hd1) as (f1 & -> & Hf1 & _ & _). cbn [bind].
   destruct (idx_ok p1 d) as [cur ->]; [lia|]. cbn [bind].
@@ -190,14 +178,13 @@ Proof.
   { destruct cur; [|eauto]. rewrite sto_ok by lia. eexists; split; [reflexivity|apply zlen_set_nth]. }
   destruct Hf2 as (f2 & -> & Hf2). cbn [bind].
   destruct (r_src r) as [v| name | | | |]; try reflexivity.
-  - (* fd source *)
-    assert (Hsrc : (exists e, eval_for_fd v true = Err e)
-                   \/ exists s, eval_for_fd v true = Ok s /\ -1 <= s).
-    { destruct v; cbn in *; eauto; right; eexists; (split; [reflexivity|lia]). }
-    destruct Hsrc as [[e ->]|(s & -> & Hs1)]; [reflexivity|]. cbn [bind].
+  - (* fd source: any integer *)
+    destruct (eval_for_fd v true) as [s| |] eqn:Es;
+      [|reflexivity|destruct v; cbn in Es; discriminate].
+    cbn [bind].
     destruct (s =? -1) eqn:Em1.
     { rewrite sto_ok by lia. reflexivity. }
-    destruct (s >=? zlen p1) eqn:Ege; [reflexivity|].
+    destruct ((s <? 0) || (s >=? zlen p1)) eqn:Ege; [reflexivity|].
     destruct (idx_ok p1 s) as [sp ->]; [lia|]. cbn [bind].
     destruct sp; [|reflexivity]. rewrite sto_ok by lia. reflexivity.
   - (* file *)
@@ -216,19 +203,17 @@ Proof.
   destruct (redir_exec limit st r) as [st'| |]; cbn [bind]; [apply IH; auto|reflexivity|discriminate].
 Qed.
 
-Lemma port_negative_fd_refuted :
-  exists limit st r, 2 <= limit /\ redir_exec limit st r = Panic PIndex.
+(* a negative destination or source fd is the invalid-fd exception *)
+Lemma port_negative_dst_is_exception limit st z m s :
+  z < 0 -> redir_exec limit st (mkRedir (Some (FdNum z)) m s) = Err EInvalidFD.
 Proof.
-  exists 1000, (form_start false false), (mkRedir (Some (FdNum (-1))) MWrite (SrcFileOk 1%N)).
-  split; [lia|reflexivity].
+  intros Hz. destruct st as [ports fops]. unfold redir_exec, dst_eval. cbn [r_dst eval_for_fd bind].
+  destruct (z <? 0) eqn:E; [reflexivity|lia].
 Qed.
 
-Lemma port_negative_src_fd_refuted :
-  exists limit st r, 2 <= limit /\ redir_exec limit st r = Panic PIndex.
-Proof.
-  exists 1000, (form_start false false), (mkRedir None MWrite (SrcFd (FdNum (-2)))).
-  split; [lia|reflexivity].
-Qed.
+Lemma port_negative_src_is_exception :
+  redir_exec 1000 (form_start false false) (mkRedir None MWrite (SrcFd (FdNum (-2)))) = Err EInvalidFD.
+Proof. reflexivity. Qed.
 
 Lemma port_huge_fd_refuted :
   exists limit st r, 2 <= limit /\ redir_exec limit st r = Panic PMakeSlice.
@@ -237,23 +222,12 @@ Proof.
   split; [lia|reflexivity].
 Qed.
 
-(* every negative destination panics, whatever the rest *)
-Lemma port_negative_dst_all limit st z m s :
-  z < 0 -> redir_exec limit st (mkRedir (Some (FdNum z)) m s) = Panic PIndex.
-Proof.
-  intros Hz. destruct st as [ports fops]. unfold redir_exec. cbn [r_dst eval_for_fd bind].
-  now rewrite grow_access_negative.
-Qed.
-
 (* Frame.Port *)
-Lemma frame_port_no_panic_partial ports i : 0 <= i -> is_panic (frame_port ports i) = false.
+Lemma frame_port_no_panic ports i : is_panic (frame_port ports i) = false.
 Proof.
-  intros Hi. unfold frame_port. destruct (i >=? zlen ports) eqn:E; [reflexivity|].
+  unfold frame_port. destruct ((i <? 0) || (i >=? zlen ports)) eqn:E; [reflexivity|].
   destruct (idx_ok ports i) as [x ->]; [lia|reflexivity].
 Qed.
-
-Lemma frame_port_negative_refuted : exists ports i, frame_port ports i = Panic PIndex.
-Proof. exists [Some (POrig 0%N)], (-1). reflexivity. Qed.
 
 (* --- the end-of-form bookkeeping: port 0 must still be the pipe's port --- *)
 
@@ -276,12 +250,13 @@ Lemma redir_exec_keeps_port0 limit st r st' :
 Proof.
   intros Hls Hex Hlen. destruct st as [ports fops]. cbn [fst] in Hlen. unfold redir_exec in Hex.
   unfold leaves_stdin, dst_of in Hls.
-  destruct (match r_dst r with
-            | None => Ok (match r_mode r with MRead => 0 | _ => 1 end)
-            | Some v => eval_for_fd v false end) as [d| |] eqn:Ed; try discriminate.
+  destruct (dst_eval r) as [d| |] eqn:Ed; try discriminate.
   assert (Hd : d <> 0).
-  { destruct (r_dst r) as [v|]; [destruct v; cbn in Ed; inversion Ed; subst; auto; discriminate|].
-    inversion Ed; subst. auto. }
+  { unfold dst_eval in Ed. destruct (r_dst r) as [v|].
+    - destruct v as [z|k| |]; cbn in Ed; try discriminate.
+      + destruct (z <? 0); [discriminate|]. inversion Ed; subst. auto.
+      + destruct (k <? 0); [discriminate|]. inversion Ed; subst. auto.
+    - inversion Ed; subst. auto. }
   cbn [bind] in Hex.
   destruct (grow_access (@None port) limit ports d) as [p1| |] eqn:Eg; try discriminate. cbn [bind] in Hex.
   assert (Hp1 : nth_error p1 0%nat = nth_error ports 0%nat /\ (0 < length p1)%nat).
@@ -304,7 +279,7 @@ Proof.
     destruct (s =? -1).
     { destruct (sto p1 d (Some PClosed)) as [p'| |] eqn:Es; try discriminate.
       inversion Hex; subst. cbn [fst]. eapply Hsto; eauto. }
-    destruct (s >=? zlen p1); [discriminate|].
+    destruct ((s <? 0) || (s >=? zlen p1)); [discriminate|].
     destruct (idx p1 s) as [sp| |]; try discriminate. cbn [bind] in Hex.
     destruct sp as [p|]; [|discriminate].
     destruct (sto p1 d (Some p)) as [p'| |] eqn:Es; try discriminate.
@@ -367,7 +342,7 @@ Lemma pipeline_stdin_redirect_refuted :
                    /\ form_exec limit true false rs = Panic PNilDeref.
 Proof.
   exists 1000, [mkRedir None MRead (SrcFileOk 1%N)]. split; [lia|]. split; [|reflexivity].
-  constructor; [|constructor]. split; exact I.
+  constructor; [|constructor]. exact I.
 Qed.
 
 Lemma pipeline_stdin_close_refuted :
@@ -375,20 +350,16 @@ Lemma pipeline_stdin_close_refuted :
                    /\ form_exec limit true false rs = Panic PCloseClosed.
 Proof.
   exists 1000, [mkRedir None MRead (SrcFd FdDash)]. split; [lia|]. split; [|reflexivity].
-  constructor; [|constructor]. split; exact I.
+  constructor; [|constructor]. exact I.
 Qed.
 
 (* ================================================================== *)
-(* E. HasSubseq: slicing past the end for invalid UTF-8 *)
+(* E. HasSubseq: the former crash witnesses *)
 
-Lemma has_subseq_invalid_utf8_refuted :
-  exists s t, go_has_subseq s t = Panic PSlice.
-Proof. exists [255%N], [255%N]. vm_compute. reflexivity. Qed.
-
-(* a valid seed containing U+FFFD also matches an invalid byte of the candidate *)
-Lemma has_subseq_replacement_char_refuted :
-  go_has_subseq [97%N; 195%N] [239%N; 191%N; 189%N] = Panic PSlice.
-Proof. vm_compute. reflexivity. Qed.
+Lemma has_subseq_former_witnesses :
+  go_has_subseq [255%N] [255%N] = Ok true
+  /\ go_has_subseq [97%N; 195%N] [239%N; 191%N; 189%N] = Ok true.
+Proof. split; vm_compute; reflexivity. Qed.
 
 (* ================================================================== *)
 (* the oracle *)
